@@ -358,7 +358,7 @@ type CLog struct {
 	CloseErr   *ErrObs             `json:"close_err,omitempty"`
 	Recv       [][]byte            `json:"-"`
 	RecvD      []string            `json:"recv"`
-	RecvEnd    *ErrObs             `json:"recv_end,omitempty"`  // first RecvMsg error
+	RecvEnd    *ErrObs             `json:"recv_end,omitempty"`   // first RecvMsg error
 	RecvAfter  []ErrObs            `json:"recv_after,omitempty"` // results of RecvMsg calls after the first error
 	HeaderMD   map[string][]string `json:"header,omitempty"`
 	HeaderErr  *ErrObs             `json:"header_err,omitempty"`
